@@ -107,6 +107,13 @@ def gen_case(seed, tier='quick', max_geos=None, degenerate=False):
     # a window bound between the number of dates and twice that number: the whole (shorter) history is the window
     par['n_pretest_max'] = nd + r3.choice([nd // 2, nd // 2 + 1, nd - 1, 8])
     case['window_bound_above_history'] = True
+  r4 = random.Random(seed * 130003 + 17)
+  if r4.random() < 0.25:
+    # the statistical settings of the pre-analysis away from their defaults
+    for k, vals in (('sig_level', [0.8, 0.95]), ('power_level', [0.7, 0.9]), ('flevel', [0.95, 0.99]), ('rho_max', [0.9, 0.99])):
+      if r4.random() < 0.5:
+        par[k] = r4.choice(vals)
+    case['non_default_statistics'] = True
   if r3.random() < 0.12:
     # integer parameters given as integer-valued floats (accepted by the parameter class)
     which = r3.sample(['n_test', 'n_geos_max', 'n_pretest_max', 'n_designs', 'treatment_geos_range', 'control_geos_range'], r3.randint(1, 3))
